@@ -385,3 +385,45 @@ def low_order_u(cid, u):
     if cid == 8:
         return u in X25519_LOW_ORDER
     return u in X448_LOW_ORDER
+
+
+# ---- executable interpretations of the uninterpreted primitives above: used only when a clause is evaluated on CONCRETE states during a
+# native replay (vf/pyvc/replay.py), never in a proof
+def _n_is_square_mod(a, p):
+    a %= p
+    return a == 0 or pow(a, (p - 1) // 2, p) == 1
+
+
+def _n_sqrt_mod(a, p):
+    """the square root the contracts name: any root r with 0 <= r < p (clauses compare against r or p - r)"""
+    a %= p
+    if a == 0:
+        return 0
+    if p % 4 == 3:
+        r = pow(a, (p + 1) // 4, p)
+    elif p % 8 == 5:
+        r = pow(a, (p + 3) // 8, p)
+        if (r * r - a) % p != 0:
+            r = (r * pow(2, (p - 1) // 4, p)) % p
+    else:
+        raise ValueError('no closed form')
+    if (r * r - a) % p != 0:
+        raise ValueError('not a square')
+    return r
+
+
+def _n_gcd(a, b):
+    import math
+    return math.gcd(a, b)
+
+
+def _n_inverse(a, m):
+    return pow(a, -1, m)
+
+
+def _n_lcm(a, b):
+    import math
+    return 0 if a == 0 or b == 0 else abs(a * b) // math.gcd(a, b)
+
+
+NATIVE = {'is_square_mod': _n_is_square_mod, 'sqrt_mod': _n_sqrt_mod, 'gcd': _n_gcd, 'inverse': _n_inverse, 'lcm': _n_lcm}
